@@ -1,4 +1,5 @@
 import AdaptixProofs.Lemmas.ThreadsCases
+import AdaptixProofs.Lemmas.ThreadsEval
 
 /-
   `Inv` is preserved by the actions of `cached_call`, by the loader-cache store and by the call.
@@ -48,7 +49,7 @@ theorem inv_advance_local (hinv : Inv sys s) (hth : s.threads[t]? = some th) {pc
   refine hinv.frame_local hth rfl rfl rfl rfl rfl (fun h => (run_not_closed hp h).elim) ?_
   exact threadInv_advance (sys := sys) (s' := s) (t := t) (th := th) hT.bal hins
     (stack' := stack') (locs' := th.locToStub) hstack (by rw [openStep_cached]; exact (hT.sub pc sub hp).2.1)
-    hT.nodup hT.nodupVals hT.locs (live_of_run hT)
+    hT.nodup hT.nodupVals hT.locs (live_of_run hT) hT.res
 
 theorem created_spec {site : Site} {const : Nat} {args : List Ref} {kind : Kind} {s1 : State} {r : Ref}
     (h : created s t site const args kind = some (s1, r)) :
@@ -171,7 +172,7 @@ theorem inv_store (hmode : sys.mode = .byId) (hinv : Inv sys s) (hth : s.threads
   · intro en hen; exact Or.inl hen
   · refine threadInv_advance (sys := sys) (t := t) (th := th) hT.bal hins ?_
       (by rw [openStep_cached]; exact (hT.sub pc _ hp).2.1) hT.nodup hT.nodupVals
-      (fun loc x hm => hT.locs loc x hm) (fun x sd hx ho => live_of_run hT x sd hx ho)
+      (fun loc x hm => hT.locs loc x hm) (fun x sd hx ho => live_of_run hT x sd hx ho) hT.res
     intro a ha
     split at ha
     · exact (hT.stack (run_active hp) a (List.mem_of_mem_drop ha)).mono e.toExt
@@ -228,12 +229,14 @@ theorem inv_put (hinv : Inv sys s) (hth : s.threads[t]? = some th) (hp : th.phas
         rcases live_of_run hT x sd hx ho with h | ⟨loc, h⟩
         · exact h
         · rw [hT.putEmpty hp] at h; cases h
-      fresh := fun h => by simp at h }
+      fresh := fun h => by simp at h
+      res := hT.res }
 
 /-- `loader(data)` -/
 theorem inv_call (hinv : Inv sys s) (hth : s.threads[t]? = some th) {r : Ref} (hp : th.phase = .call r)
-    {res : Res} {l : Label} :
-    Inv sys (emit (setThread s t { th with phase := .done, result := some res }) l) := by
+    {l : Label} :
+    Inv sys (emit (setThread s t { th with phase := .done,
+                                           result := some (eval s.heap s.stubs sys.fuel th.depth r) }) l) := by
   have hT := hinv.threads t th hth
   refine hinv.frame_local hth rfl rfl rfl rfl rfl (fun _ => rfl) ?_
   exact {
@@ -250,6 +253,7 @@ theorem inv_call (hinv : Inv sys s) (hth : s.threads[t]? = some th) {r : Ref} (h
       rcases (hT.live x sd hx ho).2 with h | ⟨h, _⟩
       · exact h
       · rw [hp] at h; simp [Phase.isActive] at h
-    fresh := fun h => by simp at h }
+    fresh := fun h => by simp at h
+    res := fun h => sealed_eval hinv sys.fuel th.depth r (hT.call r hp) (Option.some.inj h) }
 
 end Adaptix.Threads
